@@ -1466,6 +1466,15 @@ def run(tier):
     chk.adopt('C12.R6', 're-duplication rebuilds exactly the nodes whose '
               'identity (or a child\'s object) changed and keeps the text '
               '(shared with C13.R2-R4)', sub13)
+    from .. import memo
+
+    def _memo_rule(chk, prog):
+        chk.rule('C12.R8', 'memoised functions of the node classes: the cached value depends only on the cache key')
+        memo.report(chk, prog, 'C12.R8', 'memoised functions of the node classes',
+                    lambda m, q: m.name == 'nodes',
+                    'equal keys are served the value computed for another object: a structurally equal but distinct tree is pickled / rendered with the identities of the first one')
+
+    chk.guard(_memo_rule, chk, prog)
     extra = None
     if tier == 'thorough':
         from .. import selftest
